@@ -81,6 +81,8 @@ def c01(rec, mode, d):
     # narrow matchers for defects already understood (each needs its specific input feature)
     if err == "EOF" and not diff and b is not None and len(b) <= 5 and b[:1] == b"u":
         return [("c01:toplevel-one-char-string-spurious-EOF", "a top-level one-character string decodes to the right value but Unmarshal returns EOF", True)]
+    if "unhashable map key" in err and value_has_invalid_utf8_str(rec):
+        return [("c01:invalid-utf8-string-in-interface-returns-bytes", "a non-UTF-8 string used as key of a map[interface{}]… is written as bytes; it cannot come back as a key (decode error: %s)" % err[:80], True)]
     if "can not cast []interface {} to" in err and "complex" in err:
         return [("c01:complex-with-imaginary-part-not-decodable", "complex with non-zero imaginary part is written as a 2-list that no complex decoder accepts: " + err, True)]
     if "instant" in diff and "(time" in _sexp(rec):
